@@ -87,6 +87,11 @@ func iterAll(it ranges.Iterator) []int {
 }
 
 func probeTail(b *strings.Builder, n int, mn, mx int, value func(int) (int, error), index func(int) int, has func(int) bool) {
+	const big = 1 << 60
+	if mn < -big || mx > big || mx-mn > 1<<20 || n > 1<<20 {
+		// the probe loops themselves would overflow or run for ever
+		return
+	}
 	var vs []string
 	for i := -2; i < n+3; i++ {
 		v, err := value(i)
@@ -114,6 +119,21 @@ func probeRanges(rs *ranges.InclusiveRanges) string {
 	probeTail(&b, n, rs.Min(), rs.Max(), rs.Value, rs.Index, rs.Contains)
 	fmt.Fprintf(&b, " str=%s", hexs(rs.String()))
 	return b.String()
+}
+
+func reparse(s string) string {
+	fs, err := fileseq.NewFrameSet(s)
+	if err != nil {
+		return "ERR"
+	}
+	return zlist(fs.Frames())
+}
+
+func reparseOrDash(s string) string {
+	if s == "" {
+		return "-"
+	}
+	return reparse(s)
 }
 
 func minmax(l []int) (int, int) {
@@ -339,12 +359,20 @@ func dispatch(op string, a []string) string {
 		for p := 0; p < 7; p++ {
 			ip = append(ip, hexs(fs.InvertedFrameRange(p)))
 		}
-		return fmt.Sprintf("OK nstr=%s nframes=%s istr=%s iframes=%s ipad=%s",
-			hexs(nf.FrameRange()), zlist(nf.Frames()), hexs(iv.FrameRange()), zlist(iv.Frames()), strings.Join(ip, ","))
+		var ipre []string
+		for p := 0; p < 7; p++ {
+			ipre = append(ipre, reparseOrDash(fs.InvertedFrameRange(p)))
+		}
+		return fmt.Sprintf("OK nstr=%s nframes=%s istr=%s iframes=%s ipad=%s frames=%s nre=%s ire=%s ipadre=%s nnstr=%s",
+			hexs(nf.FrameRange()), zlist(nf.Frames()), hexs(iv.FrameRange()), zlist(iv.Frames()), strings.Join(ip, ","),
+			zlist(fs.Frames()), reparse(nf.FrameRange()), reparseOrDash(iv.FrameRange()), strings.Join(ipre, ";"),
+			hexs(nf.Normalize().FrameRange()))
 	case "f2r":
-		return "OK s=" + hexs(fileseq.FramesToFrameRange(argzl(a[0]), argz(a[1]) != 0, argz(a[2])))
+		s := fileseq.FramesToFrameRange(argzl(a[0]), argz(a[1]) != 0, argz(a[2]))
+		return "OK s=" + hexs(s) + " re=" + reparseOrDash(s)
 	case "padfr":
-		return "OK s=" + hexs(fileseq.PadFrameRange(a[0], argz(a[1])))
+		t := fileseq.PadFrameRange(a[0], argz(a[1]))
+		return "OK s=" + hexs(t) + " in=" + reparse(a[0]) + " out=" + reparse(t) + " again=" + hexs(fileseq.PadFrameRange(t, argz(a[1])))
 	case "seq":
 		q, err := fileseq.NewFileSequencePad(a[0], fileseq.PadStyle(argz(a[1])))
 		if err != nil {
